@@ -23,7 +23,7 @@ CHECKS = {
          "Trusts ref for the selected-slot computation; engine API semantics.",
          "DESIGN.md section 4 (C04)"),
  "C05": ("fault injection by property-based testing: generated dishonest hint outputs at every static prover-supplied-value site (rapid), differential with compiled R1CS/SCS via solver.OverrideHint, plus an interval-bound invariant monitor over whole executions",
-         "Every hint call of eight isolated gadgets (incl. a full Poseidon permutation, 1650 calls) and the first/middle/last occurrence of each of the 62 static hint-site groups of a whole-verifier execution is replaced by generated dishonest tuples (field-wrap, shifted, field-solved, limb-shifted, inverse+p, arbitrary); any tuple differing from the honest one must be rejected by the requesting gadget's own constraints. A bound monitor checks over ~415k chip equalities that both sides stay below r for every admissible operand value.",
+         "Every hint call of eight isolated gadgets (incl. a full Poseidon permutation, 1650 calls) and the first/middle/last occurrence of each of the 62 static hint-site groups of a whole-verifier execution is replaced by generated dishonest tuples (field-wrap, shifted, field-solved, limb-shifted, inverse+p, arbitrary); any tuple differing from the honest one must be rejected by the requesting gadget's own constraints. A bound monitor checks over ~415k chip equalities that both sides stay below r for every admissible operand value. Locality is decided by taint depth in the engine, not by function names.  The bound monitor (wrap-freeness of every equality and honest-values-fit) also runs over single gate evaluators with generated parameters.",
          "Monitor transfer functions and engine semantics are trusted; Inverse(0) output is a documented don't-care; evidence, not proof.",
          "DESIGN.md section 4 (C05)"),
  "C06": ("property-based testing (rapid) with an integer oracle, differential across evaluation-engine flavours, gnark's test engine and compiled R1CS/SCS systems, with dishonest limb hints",
